@@ -127,6 +127,37 @@ CHECKS = {
        "arbitrary bytes. The same boundary property for enum rules (5 templates) and JSON documents with the trailing-characters option.",
   note="The repository's test corpus is not replayed here; follow-up texts starting with blanks only are outside.",
   ref="DESIGN.md §4 C15"),
+
+ "C05": dict(
+  text="Bounded symbolic model checking through UsedUserTypes() and Check(): ten reference positions (value shortcut, @a | @b, key "
+       "shortcut, type, or item string, or rule-set type, allOf, additionalProperties, nested array/object, allOf list + own member) "
+       "whose target names are symbolic letters over {@a,@b,@c} - the collector's de-duplication map and the type table are looked up "
+       "with symbolic keys, so the solver decides which names coincide - under every subset of registered types (symbolic flags): "
+       "UsedUserTypes() equals the distinct names in text order regardless of registration; Check() reports code 1302 naming a "
+       "missing type iff a referenced type is unregistered and accepts otherwise; registering an unreferenced extra type changes "
+       "neither verdict/code, used-type list, example nor AST (two-run comparison).",
+  note="Graphs over more than three names and reference nesting deeper than the templates are outside; registered type bodies are "
+       "chosen per template so that a missing type is the only possible rejection reason.",
+  ref="DESIGN.md §4 C05"),
+ "C06": dict(
+  text="Bounded symbolic model checking of the recursion checker and the example builder: ALL reference graphs over 3 object types with "
+       "1 (quick) / 1-2 (thorough) members, every member an edge of kind required / optional / nullable / array / choice to "
+       "arbitrary targets; the root is the type @a checked under its own name with every type registered: (1) code 104 is only "
+       "reported when the root has no finite instance (least-fixpoint oracle); (2) a root that reaches itself through mandatory "
+       "plain links is reported; (3) when Check() passes, Example() terminates within the step budget and is RFC 8259 JSON.",
+  note="After the forks on edge kinds and targets the runs are concrete: the solver's role here is exhaustive enumeration of the "
+       "bounded graph space through the real pipeline. Known finding C06-long-mandatory-cycle (cycles through two or more other "
+       "types pass Check) is reported as KNOWN-FINDING.",
+  ref="DESIGN.md §4 C06"),
+ "C07": dict(
+  text="Bounded symbolic model checking of allOf compilation: shapes single parent, chain of two, two parents, diamond, cycle, non-object "
+       "parent (number, string, array, reference), missing parent, with property keys as symbolic one-byte strings (overlaps decided "
+       "by the solver) and symbolic optional flags; and child x parent additionalProperties over {absent, true, false, \"string\", "
+       "\"integer\", \"@t\"}^2. Refused iff a duplicate key, non-object/missing/cyclic parent or differing additionalProperties; when "
+       "merged, the compiled ObjectNode has own keys then inherited ones in order, each marked with the parent named in this "
+       "object's allOf and keeping its optional flag, and Example() shows exactly that key set in order.",
+  note="The OpenAPI property listing is outside the claim for now; deeper DAGs than the listed shapes are outside.",
+  ref="DESIGN.md §4 C07"),
 }
 
 NOT_APPLICABLE = {
